@@ -68,13 +68,55 @@ def conform_attr(o, fn: FuncInfo, attr: str, refs: Sequence[str], what: str, cal
     return _verdict(o, fn, t, rts, what, node)
 
 
+def _new_helper_calls(o, t) -> List[str]:
+    """Calls, inside the normal form, of repo functions that do not exist on the pinned tree (helpers introduced by a
+    refactoring that could not be inlined): the term is then not comparable with the reference formula."""
+    prog = getattr(getattr(o, "ctx", None), "prog", None)
+    if prog is None:
+        return []
+    from .normalize import load_vocabulary
+    vocab = load_vocabulary()
+    if not vocab:
+        return []
+    new = {q.split(".")[-1] for q in prog.functions if q not in vocab}
+    out = []
+    for leaf in tm.leaves(t):
+        if leaf.endswith("()"):
+            nm = leaf[:-2].lstrip(".").split(".")[-1]
+            if nm in new:
+                out.append(nm)
+    return sorted(set(out))
+
+
 def _verdict(o, fn, t, rts, what, node):
     for rt in rts:
         if t == rt:
             o.holds(fn, node or fn.node, f"{what}: normal form equals the reference formula", construct=tm.show(t)[:400])
             return "equal"
+    nh = _new_helper_calls(o, t)
+    if nh:
+        o.undecided(f"{what}: the code goes through the new helper(s) {nh}, which could not be inlined", fn, node or fn.node)
+        return "undecided"
     if tm.has_opaque(t):
         o.undecided(f"{what}: the function contains a construct the summariser does not understand: {tm.show(t)[:200]}", fn, node or fn.node)
+        return "undecided"
+    # A mutation of the formula (operator, index, bound, dropped or swapped factor) speaks the vocabulary of the
+    # reference.  A term that brings in library calls / attributes / functions that no reference spelling mentions is a
+    # different WAY of computing something - the rewrite rules are not complete for that, so it is not accused.
+    known = set()
+    for rt in rts:
+        known |= tm.leaves(rt)
+    import builtins as _b
+    plain = set(dir(_b)) | {m for ty in (dict, list, set, tuple, str, frozenset) for m in dir(ty)}
+
+    def _is_foreign(l):
+        if l.endswith("()"):
+            nm = l[:-2].lstrip(".")
+            return nm.split(".")[-1] not in plain or ("." in nm and nm.split(".")[0] not in ("self",))
+        return "." in l and not l.startswith("self.") and not l.startswith("$") and not l.startswith("@") and not l.startswith("#")
+    foreign = sorted(l for l in tm.leaves(t) - known if _is_foreign(l))
+    if foreign:
+        o.undecided(f"{what}: the code uses {foreign[:4]}, which no reference spelling of the formula mentions: not comparable", fn, node or fn.node)
         return "undecided"
     o.violated(fn, node or fn.node, f"{what}: code normalises to  {tm.show(t)[:600]}  but the formula is  {tm.show(rts[0])[:600]}",
                construct=tm.show(t)[:400])
@@ -113,16 +155,7 @@ def conform(o, fn: FuncInfo, refs: Sequence[str], what: str, call_hook=None, inl
         inline.update(extra)
     t = term_of_fn(fn, call_hook, inline)
     rts = [term_of_src(r, call_hook, inline) for r in refs]
-    for rt in rts:
-        if t == rt:
-            o.holds(fn, node or fn.node, f"{what}: normal form equals the reference formula", construct=tm.show(t)[:400])
-            return "equal"
-    if tm.has_opaque(t):
-        o.undecided(f"{what}: the function contains a construct the summariser does not understand: {tm.show(t)[:200]}", fn, node or fn.node)
-        return "undecided"
-    o.violated(fn, node or fn.node, f"{what}: code normalises to  {tm.show(t)[:600]}  but the formula is  {tm.show(rts[0])[:600]}",
-               construct=tm.show(t)[:400])
-    return "different"
+    return _verdict(o, fn, t, rts, what, node)
 
 
 def snippet_term(stmts, result: str, params: Sequence[str], call_hook=None, inline=None) -> tuple:
